@@ -16,4 +16,157 @@ def ungappedDrop : String := ">"
 def ungappedKeep : String := ">="
 /-- `_extend_table`: MemoryError iff new_rows * new_cols <op> max_size -/
 def extendLimit : String := ">"
+/-- structural facts of `align_banded`, its fill functions and `get_global_trace_starts` (blank-free source text) -/
+def bandedFacts : List (String × String) :=
+    [("banded.swap_condition", "len(seq2)<len(seq1)"),
+    ("banded.swap_band", "[-diagfordiaginband]"),
+    ("banded.swap_matrix", "matrix.transpose()"),
+    ("banded.lower_upper", "min(band),max(band)"),
+    ("banded.crop_lower", "max(lower_diag,-len(seq1)+1)"),
+    ("banded.crop_upper", "min(upper_diag,len(seq2)-1)"),
+    ("banded.band_width", "upper_diag-lower_diag+1"),
+    ("banded.table_shape", "(len(seq1)+1,band_width+2)"),
+    ("banded.neg_inf", "np.iinfo(np.int32).min"),
+    ("banded.neg_inf_gap", "min(gap_penalty)ifaffine_penaltyelsegap_penalty"),
+    ("banded.neg_inf_score_guard", "min_score<0"),
+    ("banded.border_left", "neg_inf"),
+    ("banded.border_right", "neg_inf"),
+    ("banded.g1_init", "neg_inf"),
+    ("banded.g2_init", "neg_inf"),
+    ("banded.local_max_affine", "np.max(m_table)"),
+    ("banded.local_max_linear", "np.max(score_table)"),
+    ("banded.semi_max_affine", "max(m_max_score,g1_max_score,g2_max_score)"),
+    ("banded.cut", "trace_list[:max_number]"),
+    ("banded.swapped_result", "[seq2,seq1],np.flip(trace,axis=1),max_score"),
+    ("banded.fill.j_lo", "max(0,seq_i+lower_diag)"),
+    ("banded.fill.j_hi", "min(code2.shape[0],seq_i+upper_diag+1)"),
+    ("banded.fill.j_table", "seq_j-seq_i-lower_diag+1"),
+    ("banded.fill.from_diag", "score_table[i-1,j]+mat[code1[seq_i],code2[seq_j]]"),
+    ("banded.fill.from_left", "score_table[i,j-1]+gap_penalty"),
+    ("banded.fill.from_top", "score_table[i-1,j+1]+gap_penalty"),
+    ("banded.fill.local_floor", "local==Trueandscore<=0"),
+    ("banded.aff.mm", "m_table[i-1,j]+similarity_score"),
+    ("banded.aff.g1m", "g1_table[i-1,j]+similarity_score"),
+    ("banded.aff.g2m", "g2_table[i-1,j]+similarity_score"),
+    ("banded.aff.mg1", "m_table[i,j-1]+gap_open"),
+    ("banded.aff.g1g1", "g1_table[i,j-1]+gap_ext"),
+    ("banded.aff.mg2", "m_table[i-1,j+1]+gap_open"),
+    ("banded.aff.g2g2", "g2_table[i-1,j+1]+gap_ext"),
+    ("banded.aff.local_m", "m_score<=0"),
+    ("banded.aff.local_g1", "g1_score<=0"),
+    ("banded.aff.local_g2", "g2_score<=0"),
+    ("banded.starts.seq_j", "j+(seq1_len-1)+lower_diag-1"),
+    ("banded.starts.test", "seq_j<seq2_len"),
+    ("banded.starts.column_row", "(seq2_len-1)-j-lower_diag+2")]
+/-- structural facts of `align_local_gapped`, `_align_region`, the X-drop fills and `_extend_table` -/
+def gappedFacts : List (String × String) :=
+    [("gapped.no_upstream", "seq1_start==0orseq2_start==0"),
+    ("gapped.upstream_slices", "code1[seq1_start-1::-1],code2[seq2_start-1::-1]"),
+    ("gapped.downstream_slices", "code1[seq1_start+1:],code2[seq2_start+1:]"),
+    ("gapped.seed_score", "score_matrix[code1[seq1_start],code2[seq2_start]]"),
+    ("gapped.default_mts", "np.iinfo(np.int64).max"),
+    ("gapped.init_size", "(_min(len(code1)+1,INIT_SIZE),_min(len(code2)+1,INIT_SIZE))"),
+    ("gapped.init_score", "threshold+1"),
+    ("gapped.region_result_score_only", "max_score-init_score,None"),
+    ("gapped.region_result", "max_score-init_score,trace_list"),
+    ("gapped.region_cut", "trace_list[:max_number]"),
+    ("gapped.fill.k_range", "1,code1.shape[0]+code2.shape[0]+1"),
+    ("gapped.fill.i_min", "_min(i_min_k_1,i_min_k_2+1)"),
+    ("gapped.fill.i_max", "_max(i_max_k_1+1,i_max_k_2+1)"),
+    ("gapped.fill.i_min_clip", "_max(i_min,k-code2.shape[0])"),
+    ("gapped.fill.i_max_clip", "_min(i_max,code1.shape[0])"),
+    ("gapped.fill.stop", "i_min>i_max"),
+    ("gapped.fill.j_max", "k-i_min"),
+    ("gapped.fill.grow_rows", "i_max>=score_table.shape[0]"),
+    ("gapped.fill.grow_cols", "j_max>=score_table.shape[1]"),
+    ("gapped.fill.i_range", "i_min,i_max+1"),
+    ("gapped.fill.j", "k-i"),
+    ("gapped.fill.diag_valid", "from_diag!=0"),
+    ("gapped.fill.from_diag", "matrix[code1[i-1],code2[j-1]]"),
+    ("gapped.fill.from_top", "score_table[i-1,j]+gap_penalty"),
+    ("gapped.fill.from_left", "score_table[i,j-1]+gap_penalty"),
+    ("gapped.fill.score_only", "_max(from_diag,_max(from_left,from_top))"),
+    ("gapped.fill.new_max", "score>max_score"),
+    ("gapped.fill.req_score", "max_score-threshold"),
+    ("gapped.aff.mm_valid", "mm_score!=0"),
+    ("gapped.aff.mg1", "m_table[i,j-1]+gap_open"),
+    ("gapped.aff.g1g1", "g1_table[i,j-1]+gap_ext"),
+    ("gapped.aff.mg2", "m_table[i-1,j]+gap_open"),
+    ("gapped.aff.g2g2", "g2_table[i-1,j]+gap_ext"),
+    ("gapped.aff.accept_m", "m_score>=req_score"),
+    ("gapped.aff.accept_g1", "g1_score>=req_score"),
+    ("gapped.aff.accept_g2", "g2_score>=req_score"),
+    ("gapped.aff.result", "np.max(m_table)"),
+    ("gapped.extend.rows", "(table.shape[0]*2,table.shape[1])"),
+    ("gapped.extend.cols", "(table.shape[0],table.shape[1]*2)"),
+    ("gapped.extend.copy", ":table.shape[0],:table.shape[1]")]
+/-- structural facts of `align_local_ungapped` and `_seed_extend_generic` -/
+def ungappedFacts : List (String × String) :=
+    [("ungapped.upstream_condition", "upstreamandseq1_start>0andseq2_start>0"),
+    ("ungapped.upstream_slices", "code1[seq1_start-1::-1],code2[seq2_start-1::-1]"),
+    ("ungapped.downstream_slices", "code1[seq1_start+1:],code2[seq2_start+1:]"),
+    ("ungapped.seed_score", "score_matrix[code1[seq1_start],code2[seq2_start]]"),
+    ("ungapped.start_offset", "length"),
+    ("ungapped.stop_offset", "length"),
+    ("ungapped.trace_rows", "np.arange(seq1_start+start_offset,seq1_start+stop_offset),np.arange(seq2_start+start_offset,seq2_start+stop_offset)"),
+    ("ungapped.extend.domain", "_min(code1.shape[0],code2.shape[0])"),
+    ("ungapped.extend.step", "matrix[code1[i],code2[i]]"),
+    ("ungapped.extend.result", "max_score,i_max_score+1"),
+    ("ungapped.extend.init", "-1")]
+/-- every `if … : raise X` of the public functions in source order: (condition, exception class) -/
+def guards_align_banded : List (String × String) :=
+    [("notmatrix.get_alphabet1().extends(seq1.get_alphabet())ornotmatrix.get_alphabet2().extends(seq2.get_alphabet())", "ValueError"),
+    ("gap_penalty>0", "ValueError"),
+    ("gap_penalty[0]>0orgap_penalty[1]>0", "ValueError"),
+    ("else", "TypeError"),
+    ("max_number<1", "ValueError"),
+    ("len(seq1)+upper_diag<=0orlower_diag>=len(seq2)", "ValueError"),
+    ("band_width<1", "ValueError")]
+def guards_align_local_gapped : List (String × String) :=
+    [("notmatrix.get_alphabet1().extends(seq1.get_alphabet())ornotmatrix.get_alphabet2().extends(seq2.get_alphabet())", "ValueError"),
+    ("gap_penalty>=0", "ValueError"),
+    ("gap_penalty[0]>=0orgap_penalty[1]>=0", "ValueError"),
+    ("else", "TypeError"),
+    ("max_number<1", "ValueError"),
+    ("max_table_size<=0", "ValueError"),
+    ("seq1_start<0orseq2_start<0", "IndexError"),
+    ("seq1_start>=len(code1)orseq2_start>=len(code2)", "IndexError"),
+    ("else", "ValueError"),
+    ("threshold<0", "ValueError")]
+def guards_align_local_ungapped : List (String × String) :=
+    [("notmatrix.get_alphabet1().extends(seq1.get_alphabet())ornotmatrix.get_alphabet2().extends(seq2.get_alphabet())", "ValueError"),
+    ("else", "ValueError"),
+    ("threshold<0", "ValueError"),
+    ("seq1_start<0orseq2_start<0", "IndexError")]
+def guards_extend_table : List (String × String) :=
+    [("new_shape[0]*new_shape[1]>max_size", "MemoryError")]
+/-- parameters and default values of the public functions -/
+def signature_align_banded : List (String × String) :=
+    [("seq1", ""),
+    ("seq2", ""),
+    ("matrix", ""),
+    ("band", ""),
+    ("gap_penalty", "-10"),
+    ("local", "False"),
+    ("max_number", "1000")]
+def signature_align_local_gapped : List (String × String) :=
+    [("seq1", ""),
+    ("seq2", ""),
+    ("matrix", ""),
+    ("seed", ""),
+    ("threshold", ""),
+    ("gap_penalty", "-10"),
+    ("max_number", "1"),
+    ("direction", "'both'"),
+    ("score_only", "False"),
+    ("max_table_size", "None")]
+def signature_align_local_ungapped : List (String × String) :=
+    [("seq1", ""),
+    ("seq2", ""),
+    ("matrix", ""),
+    ("seed", ""),
+    ("threshold", ""),
+    ("direction", "'both'"),
+    ("score_only", "False"),
+    ("check_matrix", "True")]
 end BiotiteModel.Gen.C09
